@@ -127,13 +127,16 @@ def truncated(n, user_bounds):
             bad.append(('optimiser not called exactly once', None))
             continue
         bnd = sl[0][1]
-        lo_t, hi_t = loc + a * scale, loc + b * scale
-        s.push()
-        s.add(z3.Not(z3.And(tz(bnd[0][0]) == lo_t, tz(bnd[0][1]) == hi_t, tz(bnd[1][0]) == 0,
-                            tz(bnd[1][1]) == (hi_t - lo_t) * (hi_t - lo_t))))
-        if s.check() != z3.unsat:
-            bad.append(('optimiser bounds are not [(min,max),(0,(max-min)^2)]', None))
-        s.pop()
+        # what the property needs from the optimiser's feasible set: a positive scale (orientation of the support);
+        # the particular caps on loc and scale are a heuristic of the implementation and are not demanded
+        ok_b = bnd is not None and len(bnd) == 2 and bnd[1][0] is not None
+        if ok_b:
+            s.push()
+            s.add(z3.Not(tz(bnd[1][0]) >= 0))
+            ok_b = s.check() == z3.unsat
+            s.pop()
+        if not ok_b:
+            bad.append(('the optimiser may return a non-positive scale (no lower bound 0 on scale)', None))
     # the objective: nnlf((a,b,loc,scale), X) with the same a, b formula
     def fobj(ctx):
         rng = RNGModel()
